@@ -20,6 +20,10 @@ from harness.hist import make_keymap
 POS = ('a', 'b', 'c')
 KWO = ('k', 'm')
 XKW = ('p', 'q')
+_POS0 = POS
+# parameter names that coincide with names klepto's own plumbing uses for its parameters and locals
+HOSTILE_NAMES = ('self', 'func', 'ignored', 'args', 'kwds', 'key', 'keymap', 'cache', 'user_function', 'f', 'tol', 'deep',
+                 'object', 'algorithm', 'serializer', 'encoding', 'typed', 'flat', 'sentinel')
 
 
 def shape_name(sh):
@@ -55,42 +59,81 @@ def quick_shapes():
             S(1, 0, False, 0, (), True), S(2, 1, False, 0, (), True), S(1, 0, True, 0, (), True), S(2, 1, True, 0, (), True),
             S(1, 0, False, 1, (True,)), S(1, 0, False, 1, (False,)), S(2, 1, False, 2, (True, False)),
             S(1, 0, True, 1, (True,)), S(1, 0, False, 1, (True,), True), S(2, 1, True, 1, (True,), True),
-            S(0, 0, False, 0, (), True), S(1, 1, True, 1, (False,), True), S(3, 3), S(3, 0, True)]
+            S(0, 0, False, 0, (), True), S(1, 1, True, 1, (False,), True), S(3, 3), S(3, 0, True), S(0, 0, True, 0, (), True)]
 
 
-def make_function(sh, defaults, log):
-    """exec a def with the given shape; default objects are taken from `defaults` by name"""
-    params = []
+_FACTORIES = {}
+
+
+def make_function(sh, defaults, log, method=False):
+    """a function of the given shape built by a factory, so that every function of one shape shares one code object
+    (as closures, lambdas in a loop and re-created methods do); default objects are taken from `defaults` by name"""
+    key = (shape_name(sh), method)
+    if key not in _FACTORIES:
+        f0, ns0 = _make_source(sh, method)
+        _FACTORIES[key] = ns0['make']
+    f = _FACTORIES[key](defaults, log, lambda: None)
+    return f, {'f': f}
+
+
+def _make_source(sh, method):
+    params = ['self'] if method else []
     for i in range(sh['npos']):
         n = POS[i]
         params.append(n + ('=_D[%r]' % n if i >= sh['npos'] - sh['ndef'] else ''))
     if sh['varargs']:
-        params.append('*args')
+        params.append('*_va')
     elif sh['nkwo']:
         params.append('*')
     for i in range(sh['nkwo']):
         n = KWO[i]
         params.append(n + ('=_D[%r]' % n if sh['kwodef'][i] else ''))
     if sh['varkw']:
-        params.append('**kw')
+        params.append('**_vk')
     names = [POS[i] for i in range(sh['npos'])] + [KWO[i] for i in range(sh['nkwo'])]
-    body = 'def f(%s):\n    _log.append((%s))\n    return _ret()\n' % (
-        ', '.join(params), ''.join('%s, ' % n for n in names) + ('args, ' if sh['varargs'] else '') + ('kw, ' if sh['varkw'] else ''))
-    ns = {'_D': defaults, '_log': log, '_ret': lambda: None}
+    body = 'def make(_D, _log, _ret):\n    def f(%s):\n        _log.append((%s))\n        return _ret()\n    return f\n' % (
+        ', '.join(params), ''.join('%s, ' % n for n in names) + ('_va, ' if sh['varargs'] else '') + ('_vk, ' if sh['varkw'] else ''))
+    ns = {}
     exec(body, ns)
-    return ns['f'], ns
+    return None, ns
 
 
 class Call:
-    __slots__ = ('args', 'kw', 'named', 'extras', 'xkw', 'desc')
+    __slots__ = ('args', 'kw', 'named', 'extras', 'xkw', 'desc', 'wit')
 
 
-def gen_call(ctx, sh, defaults, free, tag):
-    """a call of the shape: symbolic spelling if free, canonical spelling otherwise"""
+WIT = (1, 1.0, True)            # equal values of different types
+NAMEWIT = ('p', 'q', 'a')       # argument values that coincide with keyword / parameter names
+
+
+def gen_call(ctx, sh, defaults, free, tag, wit=None):
+    """a call of the shape: symbolic spelling if free, canonical spelling otherwise.
+    wit='typed': the first argument is one of WIT; wit='names': extra positionals may be strings equal to keyword names"""
     c = Call()
+    c.wit = None
     npos = sh['npos']
     named = {}
     args, kwl = [], []
+    atom0 = ctx.atom
+
+    class _W:
+        first = True
+        firstx = True
+
+    def value(base):
+        if wit == 'typed' and _W.first:
+            _W.first = False
+            c.wit = ctx.choice(len(WIT), tag + 'w')
+            return WIT[c.wit]
+        return atom0(ArgSort, base)
+
+    def extra_value(base):
+        if wit == 'names' and not free and _W.firstx:
+            _W.firstx = False                    # the canonical call's first extra positional may be a keyword name
+            j = ctx.choice(len(NAMEWIT) + 1, tag + 'nw')
+            if j < len(NAMEWIT):
+                return NAMEWIT[j]
+        return value(base)
     if free:
         p = ctx.choice(npos + 1, tag + 'p')
     else:
@@ -99,7 +142,7 @@ def gen_call(ctx, sh, defaults, free, tag):
         n = POS[i]
         hasdef = i >= npos - sh['ndef']
         if i < p:
-            v = ctx.atom(ArgSort, tag + n)
+            v = value(tag + n)
             named[n] = v
             args.append(v)
         else:
@@ -107,13 +150,13 @@ def gen_call(ctx, sh, defaults, free, tag):
             if omit:
                 named[n] = defaults[n]
             else:
-                v = ctx.atom(ArgSort, tag + n)
+                v = value(tag + n)
                 named[n] = v
                 kwl.append((n, v))
     extras = ()
     if sh['varargs'] and p == npos:
         ne = ctx.choice(3, tag + 'ne')
-        extras = tuple(ctx.atom(ArgSort, tag + 'e') for _ in range(ne))
+        extras = tuple(extra_value(tag + 'e') for _ in range(ne))
         args.extend(extras)
     for i in range(sh['nkwo']):
         n = KWO[i]
@@ -121,7 +164,7 @@ def gen_call(ctx, sh, defaults, free, tag):
         if omit:
             named[n] = defaults[n]
         else:
-            v = ctx.atom(ArgSort, tag + n)
+            v = value(tag + n)
             named[n] = v
             kwl.append((n, v))
     xkw = {}
@@ -129,7 +172,7 @@ def gen_call(ctx, sh, defaults, free, tag):
         sub = ctx.choice(4, tag + 'xk')
         for j, n in enumerate(XKW):
             if sub >> j & 1:
-                v = ctx.atom(ArgSort, tag + n)
+                v = value(tag + n)
                 xkw[n] = v
                 kwl.append((n, v))
     if free and len(kwl) > 1:
@@ -143,6 +186,16 @@ def gen_call(ctx, sh, defaults, free, tag):
     c.args, c.kw, c.named, c.extras, c.xkw = tuple(args), dict(kwl), named, extras, xkw
     c.desc = {'positional': len(args), 'keywords': [k for k, _ in kwl],
               'omitted': [n for n in named if named[n] is defaults.get(n)]}
+    return c
+
+
+def min_call(ctx, sh, tag):
+    """the plainest complete call of the shape: required and defaulted parameters positional, no extras"""
+    c = Call()
+    c.wit = None
+    c.args = tuple(ctx.atom(ArgSort, tag + POS[i]) for i in range(sh['npos']))
+    c.kw = {KWO[i]: ctx.atom(ArgSort, tag + KWO[i]) for i in range(sh['nkwo']) if not sh['kwodef'][i]}
+    c.named, c.extras, c.xkw, c.desc = {}, (), {}, {}
     return c
 
 
@@ -230,13 +283,71 @@ class SymSet(set):
         raise KeyError('pop from an empty set')
 
 
+class ModuleState:
+    """'a new interpreter session' in-process: every mutable module-level container of the klepto modules (memo dicts,
+    'most recent call' slots, weak dictionaries, lru_cache wrappers) is put back to its import-time content"""
+
+    def __init__(self):
+        import collections
+        import sys
+        import weakref
+        kinds = (dict, list, set, collections.deque, weakref.WeakKeyDictionary, weakref.WeakValueDictionary)
+        self.saved = []
+        self.lru = []
+        for name, mod in list(sys.modules.items()):
+            if not (name == 'klepto' or name.startswith('klepto.')) or mod is None or '.tests' in name:
+                continue
+            for n, v in list(vars(mod).items()):
+                if n.startswith('__') and n.endswith('__'):
+                    continue
+                if isinstance(v, kinds):
+                    try:
+                        self.saved.append((v, list(v.items()) if hasattr(v, 'items') else list(v)))
+                    except Exception:
+                        pass
+                elif callable(v) and hasattr(v, 'cache_clear'):
+                    self.lru.append(v)
+
+    def reset(self):
+        for v, content in self.saved:
+            try:
+                if hasattr(v, 'items'):
+                    v.clear()
+                    v.update(content)
+                elif isinstance(v, list):
+                    v[:] = content
+                else:
+                    v.clear()
+                    (v.update if hasattr(v, 'update') else v.extend)(content)
+            except Exception:
+                pass
+        for f in self.lru:
+            try:
+                f.cache_clear()
+            except Exception:
+                pass
+
+
+_STATE = []
+
+
+def module_state():
+    """snapshot taken once per worker process, before any klepto code has run in it"""
+    if not _STATE:
+        import klepto, klepto.safe, klepto.archives        # noqa: F401
+        _STATE.append(ModuleState())
+    return _STATE[0]
+
+
 class Keys:
     def __init__(self, cfg):
         self.cfg = cfg
+        self.state = None
 
     def install(self):
         undo1 = cryptoshim.install()
         undo2 = lambda: None
+        self.state = module_state()
         if 'C17' in self.cfg['props']:
             import klepto._inspect as I
             import klepto.keymaps as KM
@@ -275,6 +386,16 @@ class Keys:
                 'd = json.load(sys.stdin)\nh = keys.build(d["cfg"])\nh.cfg["print_key"] = True\n'
                 'ReplayCtx(d["assignment"]).run(h.fn)\n') % (here, os.environ.get('KLEPTO_VERIF_REPO', '/repo'))
         outs = {}
+        if self.cfg.get('scenario') in ('session', 'fname'):
+            # session 1 (has computed another call before) and session 2 (fresh) are two real interpreters with different hash seeds
+            for mode, seed in (('primed', 1), ('fresh', 2), ('fresh', 3)):
+                code2 = code.replace('h.cfg["print_key"] = True', 'h.cfg["print_key"] = %r' % mode)
+                p = subprocess.run([sys.executable, '-c', code2], input=json.dumps({'cfg': self.cfg, 'assignment': assignment}),
+                                   capture_output=True, text=True, env=dict(os.environ, PYTHONHASHSEED=str(seed)), timeout=120)
+                outs.setdefault(p.stdout.strip() + p.stderr.strip()[-300:], []).append(mode)
+            if self.cfg.get('canary'):
+                return len(outs) == 1, {'canary': 'negated obligation: keys stable across sessions'}
+            return len(outs) > 1, {'keys_by_session': {k[:300]: v for k, v in outs.items()}}
         for seed in range(10):
             env = dict(os.environ, PYTHONHASHSEED=str(seed))
             p = subprocess.run([sys.executable, '-c', code], input=json.dumps({'cfg': self.cfg, 'assignment': assignment}),
@@ -295,11 +416,15 @@ class Keys:
         if cfg.get('via', 'cache') == 'keygen':
             return klepto.keygen(*spec, keymap=km)(f), None
         mod = klepto.safe if cfg.get('module') == 'safe' else klepto
+        if cfg.get('bare') and len(spec) == 1:
+            spec = spec[0]                      # a single name / index given bare: ignore=0, ignore='a', ignore='*'
         g = mod.inf_cache(keymap=km, ignore=spec)(f)
         return g.key, g
 
     def fn(self, ctx):
+        global POS
         cfg = self.cfg
+        POS = tuple(cfg['pos']) if cfg.get('pos') else _POS0      # parameter names of this configuration
         sh = cfg['shape']
         spec = tuple(cfg.get('ignore', ()))
         props = cfg['props']
@@ -311,12 +436,41 @@ class Keys:
             if sh['kwodef'][i]:
                 defaults[KWO[i]] = ctx.atom(ArgSort, 'D' + KWO[i])
         log = []
-        f, ns = make_function(sh, defaults, log)
+        method = bool(cfg.get('method'))
+        if self.state is None:
+            self.state = module_state()
+        self.state.reset()              # every path (and every concrete replay) starts like a fresh interpreter
+        if cfg.get('sibling') and defaults:
+            # another function object of the same code with other default objects is used first
+            d0 = {n: ctx.atom(ArgSort, 'S' + n) for n in defaults}
+            f0, _ = make_function(sh, d0, [], method)
+            k0, _g0 = self.keyfun(f0)
+            P = min_call(ctx, sh, 'P')
+            try:
+                k0(*(((_Inst.of(_g0, 'f'),) if method else ()) + P.args), **P.kw)
+            except (PathPruned, Inconclusive):
+                raise
+            except Exception:
+                pass
+        f, ns = make_function(sh, defaults, log, method)
         keyf, g = self.keyfun(f)
-        A = gen_call(ctx, sh, defaults, True, 'A')
+        if cfg.get('scenario') == 'fname':
+            return self.fn_fname(ctx, sh, defaults, keyf)
+        if cfg.get('scenario') == 'session':
+            return self.fn_session(ctx, sh, defaults, keyf)
+        A = gen_call(ctx, sh, defaults, True, 'A', wit=cfg.get('wit'))
+        selfA = selfB = ()
+        same_inst = True
+        if method:
+            o1 = _Inst.of(g if g is not None else keyf, 'f')
+            same_inst = ctx.bool('sameinst')
+            o2 = o1 if same_inst else _Inst.of(g if g is not None else keyf, 'f')
+            selfA, selfB = (o1,), (o2,)
         shape_class = {'varargs': sh['varargs'], 'kwonly': sh['nkwo'] > 0, 'varkw': sh['varkw'], 'defaults': sh['ndef'] > 0}
+        if method:
+            shape_class['method'] = True
         try:
-            kA = keyf(*A.args, **A.kw)
+            kA = keyf(*(selfA + A.args), **A.kw)
         except (PathPruned, Inconclusive):
             raise
         except Exception as e:
@@ -326,7 +480,7 @@ class Keys:
             print(repr(kA))
             return
         if 'C17' in props:
-            kA2 = keyf(*A.args, **A.kw)
+            kA2 = keyf(*(selfA + A.args), **A.kw)
             r = (kA == kA2)
             ok = bool(r)
             names = selected(sh, spec)[0]
@@ -336,12 +490,14 @@ class Keys:
                       {'kind': 'key depends on set iteration order' + (' (>= 2 ignored names, non-flat key: NULLs inserted in set order)' if diag else ''),
                        'shape_class': shape_class, 'diagnosed': diag})
             return
-        B = gen_call(ctx, sh, defaults, False, 'B')
-        kB = keyf(*B.args, **B.kw)
+        B = gen_call(ctx, sh, defaults, False, 'B', wit=cfg.get('wit'))
+        kB = keyf(*(selfB + B.args), **B.kw)
         keq = bool(kA == kB)
         beq = binding_eq(sh, spec, A, B)
         if beq is None:
             return
+        if method and 'self' not in spec and not same_inst:
+            beq = False                 # two instances: the calls differ in a non-ignored argument (the instance)
         ign = bool(spec)
         info = {'shape_class': shape_class, 'A': A.desc, 'B': B.desc}
         if keq:
@@ -371,13 +527,102 @@ class Keys:
         # end-to-end on a real cache: the second call is a hit exactly when the keys are equal
         if g is not None and cfg.get('endtoend'):
             n0 = len(log)
-            g(*A.args, **A.kw)
-            g(*B.args, **B.kw)
+            g(*(selfA + A.args), **A.kw)
+            g(*(selfB + B.args), **B.kw)
             evaluated = len(log) - n0
             if not keq:
                 pass
             elif props[0] in ('C09', 'C11'):
                 ctx.check(evaluated == 1, props[0] + ':second-call-hit', dict(info, kind='second equivalent call re-evaluated'))
+
+
+    # ---- C17: a later interpreter session computes the same key and the same archive entry name
+    def fn_session(self, ctx, sh, defaults, keyf):
+        """session 1 has computed the key of another call before (one that differs only in the type of an equal value);
+        session 2 is fresh (module state reset, other python hash values): the key of call A must be the same"""
+        cfg = self.cfg
+        A = gen_call(ctx, sh, defaults, True, 'A', wit='typed')
+        if A.wit is None:
+            raise PathPruned()
+        prime = ctx.choice(len(WIT) + 1, 'prime')
+        info = {'kind': 'key depends on what the process computed before'}
+        if cfg.get('print_key'):          # concrete replay: one real interpreter per session
+            if cfg['print_key'] == 'primed' and prime < len(WIT) and prime != A.wit:
+                same = lambda v: type(v) is type(WIT[A.wit]) and v == WIT[A.wit]
+                keyf(*tuple(WIT[prime] if same(v) else v for v in A.args), **{n: (WIT[prime] if same(v) else v) for n, v in A.kw.items()})
+            k = keyf(*A.args, **A.kw)
+            print(repr(k), repr(self.entry_name(k)))
+            return
+        try:
+            self.state.reset() if self.state else None
+            cryptoshim.SESSION[0] = 1
+            if prime < len(WIT) and prime != A.wit:
+                pa = tuple(WIT[prime] if (type(v) is type(WIT[A.wit]) and v == WIT[A.wit]) else v for v in A.args)
+                pk = {n: (WIT[prime] if (type(v) is type(WIT[A.wit]) and v == WIT[A.wit]) else v) for n, v in A.kw.items()}
+                keyf(*pa, **pk)
+            k1 = keyf(*A.args, **A.kw)
+            n1 = self.entry_name(k1)
+            self.state.reset() if self.state else None
+            cryptoshim.SESSION[0] = 2
+            k2 = keyf(*A.args, **A.kw)
+            n2 = self.entry_name(k2)
+        finally:
+            cryptoshim.SESSION[0] = 0
+        ok = bool(k1 == k2)
+        ctx.check(ok if not cfg.get('canary') else not ok, 'C17:session', info)
+        if n1 is not None:
+            ctx.check(bool(n1 == n2), 'C17:entry-name', {'kind': 'directory name of the archived entry differs between sessions'})
+
+    def entry_name(self, key):
+        """where a dir_archive stores the entry of this key (real _fname)"""
+        if not isinstance(key, (str, bytes, int, tuple)):
+            return None
+        import klepto._archives as A_
+        try:
+            return A_.dir_archive._fname(None, key)
+        except (PathPruned, Inconclusive):
+            raise
+        except Exception as e:
+            return 'raised %s' % type(e).__name__
+
+    def fn_fname(self, ctx, sh, defaults, keyf):
+        """concrete key witnesses (path separators, dots, blanks, pickled bytes, ints, tuples): the directory name must
+        not depend on the session (python hash randomisation)"""
+        import klepto._archives as A_
+        wit = ('abc', 'data/run1', 'x.y', 'p q', 'a-b', 1, ('t', 2), 2.5, A_.PROTO + b'K\x01' + A_.STOP if isinstance(A_.PROTO, bytes) else 'abc',
+               "('x', 'data/run1')", None)
+        k = wit[ctx.choice(len(wit), 'fk')]
+        if self.cfg.get('print_key'):
+            print(repr(self.entry_name(k)))
+            return
+        try:
+            cryptoshim.SESSION[0] = 1
+            n1 = self.entry_name(k)
+            cryptoshim.SESSION[0] = 2
+            n2 = self.entry_name(k)
+        finally:
+            cryptoshim.SESSION[0] = 0
+        ok = bool(n1 == n2)
+        ctx.check(ok if not self.cfg.get('canary') else not ok, 'C17:entry-name', {'kind': 'directory name of the archived entry differs between sessions'})
+
+
+class _Inst:
+    """instance whose attribute named like the method is the bound decorated method (what klepto looks for to spot 'self')"""
+
+    @classmethod
+    def of(cls, g, name):
+        C = type('Obj', (cls,), {name: g} if callable(g) and hasattr(g, '__get__') else {})
+        o = C()
+        return o
+
+    def __hash__(self):
+        return id(self) >> 4
+
+    def __eq__(self, o):
+        return o is self
+
+    def __ne__(self, o):
+        return o is not self
 
 
 _MISSING = object()
@@ -418,6 +663,13 @@ def plan(prop, tier):
 
     def add(sh, km, **kw):
         name = 'keys/%s/%s/ignore=%s/%s' % (shape_name(sh), km, kw.get('ignore', ()), kw.get('via', 'cache'))
+        if sh['ndef'] or any(sh['kwodef']):
+            kw.setdefault('sibling', True)
+        for flag in ('method', 'bare', 'wit', 'scenario'):
+            if kw.get(flag):
+                name += '/%s%s' % (flag, '' if kw[flag] is True else '=' + str(kw[flag]))
+        if kw.get('pos'):
+            name += '/names=' + ','.join(kw['pos'])
         if kw.get('canary'):
             name = 'canary:' + name
         w = (sh['npos'] + 1) * (3 if sh['varargs'] else 1) * (4 if sh['varkw'] else 1) * (2 ** sh['nkwo'])
@@ -431,6 +683,19 @@ def plan(prop, tier):
                     continue      # excluded by the statement: flat key without sentinel and variadic positionals
                 add(sh, km, endtoend=(prop == 'C09' and km in ('raw', 'str')))
             add(sh, 'raw', via='keygen')
+            # argument values that coincide with keyword names (flat keys with a sentinel, non-flat keys)
+            if sh['varargs'] and sh['varkw'] and prop == 'C10':
+                for km in ('rawsent', 'rawnf') if q else ('rawsent', 'rawnf', 'str', 'picklenf'):
+                    add(sh, km, wit='names')
+            # parameter names that collide with the names of klepto's own parameters
+            if prop == 'C09' and (sh['npos'], sh['ndef'], sh['nkwo']) == (2, 1, 0):
+                for hn in HOSTILE_NAMES:
+                    for km in ('raw', 'str') if (q or sh['varargs']) else ('raw', 'str', 'rawnf', 'md5'):
+                        add(sh, km, pos=[hn, 'b', 'c'], endtoend=(km == 'raw'))
+                        add(sh, km, pos=['a', hn, 'c'])
+            # methods: the instance is an argument like any other
+            if sh['npos'] <= 2 and (q is False or sh['nkwo'] == 0):
+                add(sh, 'rawsent', method=True)
         add(quick_shapes()[2], 'raw', canary=True)
     elif prop == 'C11':
         for sh in shapes:
@@ -440,6 +705,19 @@ def plan(prop, tier):
                         km = 'rawsent'     # flat without sentinel + *args is not information-preserving (C10)
                     add(sh, km, ignore=list(spec), endtoend=(km in ('raw', 'rawsent')))
                 add(sh, 'rawsent', ignore=list(spec), via='keygen')
+                if len(spec) == 1:
+                    add(sh, 'rawsent', ignore=list(spec), bare=True)
+            # methods: 'self' ignored by name, alone and together with names, '*' and '**'
+            if sh['npos'] <= 2 and (q is False or sh['nkwo'] == 0):
+                mspecs = [('self',)] + [('self', POS[i]) for i in range(sh['npos'])]
+                if sh['varargs']:
+                    mspecs += [('self', '*'), ('*',)]
+                if sh['varkw']:
+                    mspecs += [('self', '**'), ('self', 'p')]
+                if sh['varargs'] and sh['varkw']:
+                    mspecs += [('self', '*', '**')]
+                for spec in mspecs:
+                    add(sh, 'rawsent', ignore=list(spec), method=True, endtoend=True)
         add(quick_shapes()[2], 'raw', ignore=['b'], canary=True)
     elif prop == 'C17':
         for sh in shapes:
@@ -447,6 +725,10 @@ def plan(prop, tier):
             for spec in specs:
                 for km in (('raw', 'str', 'strflat', 'picklenf', 'md5nf') if q else ('raw', 'rawsent', 'str', 'strflat', 'pickle', 'picklenf', 'md5', 'md5nf')):
                     add(sh, km, ignore=list(spec))
+            if sh['npos'] or sh['nkwo']:
+                for km in (('str', 'strflat', 'md5', 'rawtyped') if q else ('raw', 'rawtyped', 'rawsent', 'str', 'strflat', 'strtyped', 'pickle', 'picklenf', 'md5', 'md5nf')):
+                    add(sh, km, scenario='session')
+        add(quick_shapes()[0], 'raw', scenario='fname')
         add(quick_shapes()[2], 'str', ignore=['a', 'b'], canary=True)
     # de-duplicate names
     seen, out = set(), []
